@@ -414,6 +414,25 @@ def long_multi(rng):
             "reuse": rng.random() < 0.5, "logs": rules, "procs": [ops]}
 
 
+def directed_createfail():
+    out = []
+    for keep in (1, 2, 3):
+        for reuse in (False, True):
+            for j in (1, 2):
+                for after in range(keep + 1):
+                    ops = [["start", 1]] + sum([[["tick", 1], ["run", 1]] for _ in range(2 * (j + after) + 1)], [])
+                    if after == 0:
+                        ops += [["tick", 1], ["stop", 1]]
+                    out.append({"keep": keep, "cycleP": 2, "fsize": 0 if j == 1 else 10, "flushP": 24,
+                                "reuse": reuse, "procs": [ops], "fail_open": j, "create_level": "os.open"})
+    # the known finding (key restart-after-failed-create-headerless), deterministic: the create fails in the rotation
+    # of a STOP, the same logger is started again
+    out.append({"keep": 1, "cycleP": 2, "fsize": 0, "flushP": 24, "reuse": False, "fail_open": 1,
+                "create_level": "os.open",
+                "procs": [[["start", 1], ["tick", 2], ["stop", 1], ["tick", 1], ["start", 1], ["tick", 1], ["run", 1]]]})
+    return out
+
+
 def run(ctx):
     ctx.rule = ("configurations (keep 0-3, cyclePeriod, fileSize threshold, flushPeriod, reuse) x histories of ticks "
                 "and logger controls; one streak log with 0-4 records per run, or 2-4 logs of different rules "
@@ -438,16 +457,12 @@ def run(ctx):
     # 0. directed family, first in both tiers: ONE transient failure of the creation of the new main file, located
     #    on the disk -- the os.open of the main path that follows the j-th successful os.rename(main, copy 01)
     #    inside Log.cycle raises EMFILE once, every later open works; the history goes on with a record per run
-    #    and a rotation every 2 ticks (so whatever main file exists after the fault is rotated into the copies),
-    #    with (j = 1, 3) and without (j = 2) a final STOP; compared with the model's runfo and with the statement (spec_open)
-    for keep in (1, 2, 3):
-        for reuse in (False, True):
-            for j in (1, 2, 3):
-                ops = [["start", 1]] + sum([[["tick", 1], ["run", 1]] for _ in range(2 * j + 2 * keep + 5)], [])
-                if j != 2:
-                    ops += [["tick", 1], ["stop", 1]]
-                cases.append({"keep": keep, "cycleP": 2, "fsize": 0 if j != 2 else 10, "flushP": 24,
-                              "reuse": reuse, "procs": [ops], "fail_open": j, "create_level": "os.open"})
+    #    and a rotation every 2 ticks for `after` = 0..keep further rotations (so a main file made after the fault
+    #    is looked at as main and as every copy 01..keep, BEFORE it is discarded as the oldest copy), then one
+    #    more run (+ STOP when after = 0: with reuse the STOP path rotates once more); compared with the model's
+    #    runfo and with the statement (spec_open: header first in every non-empty retained file, no record lost
+    #    silently / duplicated; a logger that died loudly is allowed)
+    cases += directed_createfail()
     base = [["start", 1]] + sum([[["tick", 1], ["run", 1]] for _ in range(16)], []) + [["tick", 1], ["stop", 1]]
     for reuse in (False, True):
         cases.append({"keep": 2, "cycleP": 4, "fsize": 10, "flushP": 24, "reuse": reuse, "procs": [base]})
@@ -640,8 +655,21 @@ def run(ctx):
         if why:
             fails.append((case, res, why))
 
+    RESTART_KEY = "restart-after-failed-create-headerless"
+
+    def restart_class(f):
+        """the finding on the unchanged code: the creation of the new main file fails in a rotation of a run that
+        writes nothing afterwards (e.g. at STOP), the SAME logger is START-ed again: the runner's reopen() makes a
+        main file without the header.  Recognised by: header statement fails, open-failure case, a START follows
+        the op of the fault"""
+        case, res, why = f
+        fo = res.get("fault_op")
+        return (case.get("fail_open") is not None and fo is not None and "does not start with the header" in why
+                and any(op[0] == "start" for op in case["procs"][0][fo + 1:]))
+
     def weight(f):
-        return (len(harness.rules_of(f[0])), sum(len(p) for p in f[0]["procs"]))
+        # failures outside the known class first (a known finding never masks another violation)
+        return (restart_class(f), len(harness.rules_of(f[0])), sum(len(p) for p in f[0]["procs"]))
     if fails:
         case, res, why = min(fails, key=weight)
         ctx.tie_broken("statement", "C23 property statement fails on the implementation",
@@ -652,7 +680,8 @@ def run(ctx):
             return None
         case, res, why = min(fails, key=weight)
         due = due_flushed(case)
-        return {"case": case, "impl_files": res["files"], "flushed_per_log": res["spy"]["flushed"], "why": why,
+        return {"key": RESTART_KEY if restart_class((case, res, why)) else None,
+                "case": case, "impl_files": res["files"], "flushed_per_log": res["spy"]["flushed"], "why": why,
                 "config": {"logger_period_ticks": None if not due else due[3], "flushPeriod_ticks": case["flushP"],
                            "cyclePeriod_ticks": case["cycleP"], "keep": case["keep"],
                            "crash_tick": None if not due else due[2], "tick_seconds": 0.125,
